@@ -31,16 +31,20 @@ ASSUME = ['modeling.rst does not document the order of variables()/constraints()
           'op._variables[v] = {o, i, e} is checked against its description in the op class docstring',
           'solvers.lp requires Rank(A)=p and Rank([G;A])=n (coneprog.rst): when the exact LP of the reference '
           'model violates this, the outcome of solve() is unspecified and only recorded',
-          'status "unknown" is a documented outcome and is never reported against the exact LP (it must still '
-          'agree with the freshly constructed op); a problem that is both primal and dual infeasible may report '
-          'either infeasibility status',
+          'status "unknown" (solver not successful, e.g. "singular KKT matrix" on LPs without a strictly feasible dual, '
+          'depending on the column order) is a documented outcome of any solve: it is recorded in the outcome '
+          'histogram but neither compared with the exact LP nor demanded equal between edited and fresh op; '
+          'a problem that is both primal and dual infeasible may report either infeasibility status',
+          'solver tolerances abstol = reltol = 1e-8 are set for both the edited and the fresh op',
           'exceptions raised by solve() itself on a consistent op (no inequality, equality-only, single '
           'constant-only inequality) are not C13 matters: only "edited op behaves like the fresh op" is demanded',
           'whether op.status is reset by an edit is not documented and not checked',
           'optimal values agree within 1e-6 (relative to 1+|value|)']
-BOUNDS = {'quick': 'depth 3 (events after the initial op) from each of the 3 initial ops, all 19 events at every state, '
-                   'right-hand-side palette VERIF_SEED mod 4, dense format (sparse for odd seeds)',
-          'thorough': 'depth 4 from each of the 3 initial ops, all 19 events at every state, palette VERIF_SEED mod 4'}
+BOUNDS = {'quick': 'depth 4 (events after the initial op) from each of the 3 initial ops, all 19 events at every state '
+                   '(60 subtrees, ~1.2e5 histories, ~4.6e4 states); right-hand-side palette VERIF_SEED mod 4; '
+                   'solve format dense for even seeds, sparse for odd seeds',
+          'thorough': 'depth 5 from each of the 3 initial ops, all 19 events at every state (~8.7e5 histories, ~3.1e5 states); '
+                      'palette and format as in quick'}
 
 CNAMES = ('c1', 'c2', 'c3', 'c4', 'c5', 'c6', 'c7')
 ONAMES = ('o1', 'o2', 'o3', 'o4')
